@@ -739,6 +739,48 @@ class CsvStub:
     DictReader = _DictReader
 
 
+class VirtualFS:
+    """open() inside cardutil's command line modules: named RopeFiles (binary) / CSV stubs (text); no real file is touched"""
+    def __init__(self):
+        self.files = {}
+
+    def reset(self):
+        self.files = {}
+
+    def open(self, name, mode='r', *a, **kw):
+        if 'b' in mode:
+            if 'w' in mode:
+                f = RopeFile()
+                self.files[name] = f
+                return f
+            if name not in self.files:
+                raise FileNotFoundError(name)
+            src = self.files[name]
+            return RopeFile(src.getvalue() if isinstance(src, RopeFile) else src)
+        if 'w' in mode:
+            f = CsvOut()
+            f.__enter__ = lambda: f
+            self.files[name] = f
+            return _Ctx(f)
+        if name not in self.files:
+            raise FileNotFoundError(name)
+        return _Ctx(self.files[name])
+
+
+class _Ctx:
+    def __init__(self, obj):
+        self.obj = obj
+
+    def __enter__(self):
+        return self.obj
+
+    def __exit__(self, *a):
+        return False
+
+
+VFS = VirtualFS()
+
+
 SHADOWS = {
     'len': sh_len,
     'str': StrLike,
@@ -749,4 +791,5 @@ SHADOWS = {
     '__vmul__': sh_mul,
     '__vgetitem__': sh_getitem,
     '__fuel__': core.FUEL,
+    'open': VFS.open,
 }
